@@ -29,6 +29,86 @@ CLAIMS['C17'] = dict(
     technique="CBMC dfcc contracts on lowered Timestamp methods (cvc5/cadical) + SMT integer lemmas (z3)",
     design_ref="6/C17")
 
+
+COMMON_NOTE = ("Trusted: the cdns2c lowering (clang 14 JSON AST -> C, closed rule table), CBMC 6.11 dfcc and its SAT/SMT back ends, LP64, and the "
+               "library models listed in the evidence file's trusted_base (optional/string/vector abstractions, istream, sink, BlockTable as a sequence). ")
+CLAIMS['C05'] = dict(
+    text="Proof that read_to_buffer (the only refill point) raises end-of-input exactly when no input byte is left - for every window position, "
+         "every stream state (good / eof / failed = unopened) and every remaining length incl. 0 and exact multiples of the window - and otherwise "
+         "leaves at least one unread byte in the window with the logical position unchanged; peek/read_cbor_type/read_int/all typed head readers and "
+         "definite strings inherit 'too few bytes => end-of-input, nothing returned' through its contract.",
+    note=COMMON_NOTE + "The 'truncated file yields only complete blocks' consequence rests on the reader units (r.*) consuming whole maps; CdnsReader::read_block itself is not under contract.",
+    technique="CBMC dfcc contracts on the lowered decoder against a ghost std::istream model with two watched input bytes", design_ref="6/C05, 12.2")
+CLAIMS['C07'] = dict(
+    text="Proof for read_unsigned/negative/integer/bool/array_start/map_start/break/read_int and definite-length strings: every head width (also "
+         "non-preferred), value per byte lane, position advanced by exactly the item's bytes, any placement relative to the 65535-byte window incl. "
+         "a refill between any two bytes, format error exactly for the heads RFC 8949 forbids for that reader. NOT covered: chunked strings and skip_item (see DESIGN 12.2).",
+    note=COMMON_NOTE + "Partial claim: the indefinite-length string branch and skip_item exceeded the verifier's reach (memory) and a bounded stand-in did not terminate; they are not counted.",
+    technique="CBMC dfcc function + loop contracts on lowered decoder bodies; RFC 8949 head grammar as macros; watched head/argument bytes", design_ref="6/C07, 12.2")
+CLAIMS['C10'] = dict(
+    text="Proof that every encoder operation returns exactly the bytes it appends (byte layer) and that every *::write, CdnsBlock::write, "
+         "write_file_header, write_block, buffer_*, rotate_output return exactly the sum of what they caused to be appended (ghost byte counter), "
+         "incl. the single closing byte added on destruction.",
+    note=COMMON_NOTE + "Item layer uses the byte-layer contracts as token stubs (A13 ii). Compression is below this layer (counts are of uncompressed bytes).",
+    technique="CBMC dfcc contracts; ghost byte counter in the encoder stubs; loop contracts for list members", design_ref="6/C10, 12.2")
+CLAIMS['C02'] = dict(
+    text="Proof per writer that it emits exactly one well-formed item whose declared map/array length equals the members actually emitted, with "
+         "RFC 8618 keys and CBOR kinds (generated from a transcription of the RFC tables), for all member values and presence patterns incl. "
+         "present-but-empty optional structures and empty lists; proof of the exporter invariant over all call histories: nothing emitted while "
+         "no block was written, header + open block array otherwise, every rotation/destruction closes an output that is empty or one complete item.",
+    note=COMMON_NOTE + "Index closure ('every stored index addresses an existing entry') is covered only by call counting in the add.* units (one table insertion per stored reference).",
+    technique="CBMC dfcc contracts against a ghost CBOR grammar monitor / key tracker; contracts generated from RFC 8618 tables", design_ref="6/C02, 12.2")
+CLAIMS['C09'] = dict(
+    text="Writers of the preamble structures emit, for every RFC key, the member's value iff it is present (absent optional => no key; present-but-empty "
+         "structure => empty map); readers set each member to the last value delivered under its RFC key and leave it in its reset state otherwise "
+         "(quick tier: StorageHints, BlockParameters; thorough tier: StorageParameters, CollectionParameters, FilePreamble readers).",
+    note=COMMON_NOTE + "The three list-bearing readers run only in the thorough tier (15-35 min); write->read equality is the composition of the two per-key statements over the same RFC table (A13).",
+    technique="CBMC dfcc contracts with a watched map key on both sides; generated from RFC 8618 tables", design_ref="6/C09, 12.2")
+CLAIMS['C08'] = dict(
+    text="Proof per reader, for a map with an arbitrary number of entries, arbitrary (unknown, negative, repeated) keys, definite or indefinite "
+         "form and any member order, that each member equals the last value delivered under its RFC key, unknown keys consume exactly one item "
+         "and change nothing, mandatory members missing => exception; head widths are abstracted away by the byte-layer contracts.",
+    note=COMMON_NOTE + "skip_item (used for unknown keys) is assumed to consume exactly one item (its contract is not discharged: DESIGN 12.2). CdnsBlockRead::read is not under contract.",
+    technique="CBMC dfcc loop contracts on lowered readers against a ghost token stream with protocol automaton", design_ref="6/C08, 12.2")
+CLAIMS['C01'] = dict(
+    text="Chain of per-function proofs: add_* store exactly the hint-enabled supplied members (add.*), writers emit them under RFC keys with "
+         "exact values and offsets (w.*), byte layer encodes/decodes heads exactly (enc.*, dec.*), readers restore each member from its key (r.*), "
+         "timestamps round-trip (ts.*).",
+    note=COMMON_NOTE + "Composition of the links is a meta-argument (A13); CdnsBlockRead::read/read_generic_* (index -> value reconstruction) and BlockTable internals are not under contract.",
+    technique="composition of CBMC dfcc contracts across layers (RFC 8618 table as the independent oracle)", design_ref="6/C01, 12.2")
+CLAIMS['C04'] = dict(
+    text="Proof for all 2^18 x 2^17 x 4 x 4 hint masks and all presence patterns (one symbolic call): a member is stored iff its hint bit is set and "
+         "the value is supplied; exactly one table insertion per stored reference (no unreachable entries); address events / malformed messages "
+         "change nothing when their bit is clear; StorageHints::write emits the four masks.",
+    note=COMMON_NOTE + "Hint bit assignment from the RFC transcription.", technique="CBMC dfcc contracts with ghost capture of the pushed record and per-table call counters", design_ref="6/C04, 12.2")
+CLAIMS['C12'] = dict(
+    text="Inductive invariant over all call histories: between calls no item array has reached max(1, max_block_items); buffer_* writes a block "
+         "exactly when add_* reports full(), returns non-zero exactly then; add_* grow exactly one array by at most one; write_block clears and re-arms.",
+    note=COMMON_NOTE + "Submission order/conservation is argued from 'grows by at most one, cleared only after a successful write'; sequence numbers are not modelled.",
+    technique="CBMC dfcc contracts: data-structure invariant on CdnsExporter/CdnsBlock", design_ref="6/C12, 12.2")
+CLAIMS['C13'] = dict(
+    text="rotate_output (both instantiations): optional export, stop code iff a header was written, the encoder switch is reached only with an "
+         "output that is empty or one complete item (asserted in the stub), the new output starts empty with the counter reset; without export "
+         "the buffered records stay buffered; encoder flush_buffer empties the staging buffer before the sink is switched.",
+    note=COMMON_NOTE + "File-level facts (rename, suffix, .part) are not covered (C15 not claimed).", technique="CBMC dfcc contracts: exporter invariant + grammar monitor", design_ref="6/C13, 12.2")
+CLAIMS['C11'] = dict(
+    text="For each block-table key type: operator== is exactly member-wise equality and equal keys hash equally (loop-free, complete); "
+         "CdnsBlock::clear resets all tables (exp.write_block); table insertions are counted per stored reference (add.*).",
+    note=COMMON_NOTE + "BlockTable<T>::add/find over std::deque/unordered_map are NOT under contract: partial claim.", technique="CBMC on lowered operator==/hash_value with CRC uninterpreted", design_ref="6/C11, 12.2")
+CLAIMS['C03'] = dict(
+    text="CBMC's bounds/pointer/signed-overflow/division/pointer-overflow checks discharged in every read-side unit (decoder primitives, 14+ item "
+         "readers, Timestamp arithmetic), decreases clauses on every loop under contract, and the allocation precondition of reserve().",
+    note=COMMON_NOTE + "Partial: CLI tools, text renderers, skip_item, CdnsBlockRead and the record accessors are not under contract.",
+    technique="CBMC dfcc contracts + generated safety checks on lowered read-side bodies", design_ref="6/C03, 12.4")
+NA.update({
+ 'C14': "compression writers (VLA scratch buffers, zlib/lzma stream protocol) were not brought under contract in this round; no check decides it",
+ 'C15': "needs an ordering contract over ofstream/rename/destructor chains (Writer<std::string>, template specialisations): not built in this round",
+ 'C16': "only the exporter part (block untouched on failure) is covered inside C12/C13 units; the writers' error reporting is not under contract",
+ 'C18': "property of five main() bodies (getopt, iostream, several files): no function-level contract within reach states it (DESIGN section 8)",
+ 'C19': "implicitly generated copy operations of BlockTable over libstdc++ containers: no source text to put a contract on (DESIGN section 8)",
+ 'C20': "schedules are outside this technique family (no thread support); the static-declaration scan of DESIGN 6/C20 was not built",
+})
+
 ALL = ['C%02d' % i for i in range(1, 21)]
 
 
